@@ -87,7 +87,7 @@ func Load(patterns []string, options ...func(c *packages.Config)) (*Universe, er
 				localPkgPaths[p.PkgPath] = directPkgPaths[p.PkgPath]
 
 				if pkgDir := p.Dir; pkgDir != "" {
-					x, _ := hashDir(pkgDir)
+					x, _ := hashDir(pkgDir, p.Module.Dir)
 					u.sumFile.Data[p.PkgPath] = x
 
 					if mod := pkg.Module(); mod != nil {
@@ -123,16 +123,19 @@ func Load(patterns []string, options ...func(c *packages.Config)) (*Universe, er
 	return u, nil
 }
 
-// hashDir is dirhash.HashDir without gengo.sum: gengo rewrites that file on every run, so a package in the
-// module root, whose directory holds it, would otherwise never be seen as unchanged.
-func hashDir(dir string) (string, error) {
+// hashDir is dirhash.HashDir without the module's gengo.sum: gengo rewrites that file on every run, so a package
+// in the module root, whose directory holds it, would otherwise never be seen as unchanged. A file of that name
+// anywhere else is a file like any other.
+func hashDir(dir string, modRoot string) (string, error) {
 	files, err := dirhash.DirFiles(dir, "")
 	if err != nil {
 		return "", err
 	}
-	files = slices.DeleteFunc(files, func(name string) bool {
-		return name == "gengo.sum"
-	})
+	if filepath.Clean(dir) == filepath.Clean(modRoot) {
+		files = slices.DeleteFunc(files, func(name string) bool {
+			return name == "gengo.sum"
+		})
+	}
 	return dirhash.Hash1(files, func(name string) (io.ReadCloser, error) {
 		return os.Open(filepath.Join(dir, name))
 	})
